@@ -252,12 +252,59 @@ def main():
             for (a, b) in dotted:
                 if b not in kept_with_args:
                     violations.append({"what": "[%s] dotted edge %s -> %s does not end at a keep with arguments" % (name, a, b)})
+        # ---- the real draw_graph, end to end: the file written for an evaluation shows the structure of THAT evaluation --
+        # one process exports the same entry function again and again while the code below it changes (notebook style)
+        import linecache
+        import pydotplus
+
+        steps = [
+            'LEAF = "/h/a"\ndef leaf_a(): return 1\ndef leaf_b(x): return x * 10\ndef mid():\n    return dds.keep(LEAF, leaf_a) + 1\ndef top(): return dds.keep("/h/top", mid)\n',
+            'LEAF = "/h/a"\ndef leaf_a(): return 1\ndef leaf_b(x): return x * 10\ndef mid():\n    a = dds.keep(LEAF, leaf_a)\n    return a + dds.keep("/h/b", leaf_b, a + 2)\ndef top(): return dds.keep("/h/top", mid)\n',
+            'LEAF = "/h/renamed"\ndef leaf_a(): return 1\ndef leaf_b(x): return x * 10\ndef mid():\n    a = dds.keep(LEAF, leaf_a)\n    return a + dds.keep("/h/b", leaf_b, a + 2)\ndef top(): return dds.keep("/h/top", mid)\n',
+            'LEAF = "/h/a"\ndef leaf_a(): return 1\ndef leaf_b(x): return x * 10\ndef mid():\n    return dds.keep(LEAF, leaf_a) + 1\ndef top(): return dds.keep("/h/top", mid)\n',
+        ]
+
+        def wrapper(fis, out, present_blobs, indirect_refs):
+            rec["graph"] = P._structure(fis, indirect_refs)
+            real(fis, out, present_blobs, indirect_refs)
+
+        P.draw_graph = wrapper
+        hp = os.path.join(d, "ghist.py")
+        dds.set_store("memory")
+        hm = None
+        for si, src in enumerate(steps):
+            evals += 1
+            with open(hp, "w") as f:
+                f.write("import dds\n" + src)
+            os.utime(hp, (1000000000 + 10 * si, 1000000000 + 10 * si))
+            linecache.checkcache()
+            importlib.invalidate_caches()
+            hm = importlib.import_module("ghist") if hm is None else importlib.reload(hm)
+            dds.accept_module(hm)
+            for out_name in ("same.dot", "step%d.dot" % si):
+                rec.clear()
+                out = os.path.join(d, out_name)
+                try:
+                    dds.eval(hm.top, dds_export_graph=out)
+                    written = pydotplus.graph_from_dot_data(open(out, "rb").read().decode())
+                except BaseException as e:
+                    violations.append({"what": "[history step %d, file %s] export failed: %s: %s" % (si, out_name, type(e).__name__, str(e)[:120])})
+                    continue
+                strip = lambda x: x.strip('"')
+                fnodes = {strip(n_.get_name()) for n_ in written.get_nodes()} - {"node", "graph", "edge", "\\n", ""}
+                fedges = {(strip(e_.get_source()), strip(e_.get_destination()), (e_.get_attributes().get("style") or "").strip('"')) for e_ in written.get_edges()}
+                g = rec["graph"]
+                styles = {P.DirectEdge: "solid", P.IndirectEdge: "dashed", P.ImplicitEdge: "dotted"}
+                wn = {str(n_.path) for n_ in g.fnodes}
+                we = {(str(e_.from_path), str(e_.to_path), styles[e_.edge_type]) for e_ in g.deps}
+                if fnodes != wn or fedges != we:
+                    violations.append({"what": "[history in one process, step %d of 4 (code below the entry function edited, entry function unchanged), file %s] the exported file shows nodes %s / edges %s, the evaluation it was requested for has nodes %s / edges %s" % (si + 1, out_name, sorted(fnodes), sorted(fedges), sorted(wn), sorted(we))})
     finally:
         P.draw_graph = real
         sys.path.remove(d)
         shutil.rmtree(d, ignore_errors=True)
         dds.set_store("memory")
-    print(json.dumps({"scope": "%d pipeline shapes (chain of 3, shared sub-node with extra sibling, helper between keeps, run-time-argument keep, loads, diamond, annotated kept function called directly whose kept path the caller loads, load of a grandchild's keep); dashed edges also against a hand-written ground truth per shape" % len(SHAPES),
+    print(json.dumps({"scope": "%d pipeline shapes (chain of 3, shared sub-node with extra sibling, helper between keeps, run-time-argument keep, loads, diamond, annotated kept function called directly whose kept path the caller loads, load of a grandchild's keep); dashed edges also against a hand-written ground truth per shape; the real draw_graph (graphviz dot output parsed back) on a 4-step edit history in one process, 2 output files per step" % len(SHAPES),
                       "evaluations": evals, "distinct_nontrivial": evals, "rule": "one case per pipeline shape; graph compared with the executable spec computed from the same interaction tree",
                       "samples": samples, "violations": violations[:10], "known_hits": []}))
 
